@@ -593,7 +593,14 @@ def check(ctx):
     ctx.floor("R10", "device members evaluated with out-of-list states", m10_, 500)
     ctx.rule("R12", "device members are total on the wiring that builds every device: the same facades, built with output number n reading the n-th user-device label of its own list (pumps at both speeds, blower, WATERFALL, light - the shipped snapshots and the mixed valuation wire only some of them), every Enum item reading a label of its list: every read-only member of every device built (`modes` included: the waterfall is a pump whose demand is labelled OFF|ON, not OFF|LO|HI) evaluates without raising - and so do its string renderings once a client watches it with a plain function (an observer need not be a bound method)")
     n12_, m12_, kinds12_ = 0, 0, set()
+    built_mixed_ = {k_ for k_, (rr_, _e) in _ools(repo, T).items() if rr_ is None}
     for (plat_, cs_, ls_, fcls_), (r_, extra_) in sorted(_ools(repo, T, valuation="devices", unknown=False, subscribe=True).items()):
+        if r_ is not None and (plat_, cs_, ls_, fcls_) in built_mixed_:
+            # the same pair builds on another block: it is THIS wiring (every offered device present) that cannot be built
+            ctx.ob("R12", f"{fcls_}::{plat_}::every-device-wired-builds", False,
+                   f"{fcls_} on ({cs_}, {ls_}) cannot be constructed once every offered user device is wired: {r_} - a key the table advertises (an entry of user_demand_keys spelt unlike its item) is found "
+                   f"case-insensitively by the scan and then looked up as spelt", repo.method(fcls_, "all_automation_devices").loc)
+            continue
         if r_ is not None or extra_ is None:
             continue      # a pair whose facade cannot be built is R1's finding
         bad_, nm_ = extra_
